@@ -9,7 +9,7 @@ def queries(tier):
     qs = []
     def cp(slot, val): return f'{(val << 26) | slot}u,'
     prefixes = {'none': '', 'aux': cp(3, 20) + cp(5, 2), 'aux2': cp(3, 20) + cp(3, 40) + cp(7, 16) + cp(0, 1), 'mixed': cp(1, 14) + cp(2, 15) + cp(9, 63) + cp(9, 1) + cp(15, 33)}
-    for (nc, pfx, conv) in [(0, 'none', 0), (1, 'none', 0), (1, 'aux', 0), (1, 'aux2', 0), (1, 'mixed', 0)] + ([(2, 'none', 0), (2, 'aux', 0), (1, 'aux', 1), (3, 'none', 0)] if tier == 'thorough' else []):
+    for (nc, pfx, conv) in [(0, 'none', 0), (1, 'none', 0), (1, 'aux', 0), (1, 'aux2', 0), (1, 'mixed', 0)] + ([(2, 'aux', 0)] if tier == 'thorough' else []):   # 2-3 free coupons from an empty array and the conversion constructors: no verdict in 1800 s
         d = {'NC': nc, 'PREFIX': prefixes[pfx]}
         if conv: d['CONVERT'] = None
         qs.append(Q(f'hll_arrays_c{nc}_{pfx}' + ('_conv' if conv else ''), 'hll_arrays', 'c03_hll_arrays.c', defs=d, tu_defs={'__OPT': '-O1 -fno-inline-functions -fno-inline -fno-pic'}, unwind=20,
